@@ -29,6 +29,8 @@ run_directed = directed.run
 
 def cases(tier, rng):
     thorough = tier == "thorough"
+    for c in directed.separation_in_every_interpreter_mode_cases():
+        yield "directed-separation-in-every-interpreter-mode", c
     for c in directed.recreated_class_cases():
         yield "directed-recreated-class", c
     for c in directed.decorating_another_function_cases():
